@@ -118,8 +118,16 @@ impl std::fmt::Write for NullW {
 // iterators
 
 pub fn drive_tcp_options(s: &mut Sink, label: &str, it: TcpOptionsIterator) {
+    drive_tcp_options_ex(s, label, it, true)
+}
+
+/// `borrowed`: the iterator walks the input itself (its `rest()` must lie inside the input); false for iterators over
+/// an owned copy of the options (TcpOptions / TcpHeader)
+pub fn drive_tcp_options_ex(s: &mut Sink, label: &str, it: TcpOptionsIterator, borrowed: bool) {
     let area = it.rest();
-    s.sl(&format!("{}.rest0", label), area);
+    if borrowed {
+        s.sl(&format!("{}.rest0", label), area);
+    }
     let budget = area.len() + 2;
     let mut it = it;
     let mut n = 0usize;
@@ -142,7 +150,9 @@ pub fn drive_tcp_options(s: &mut Sink, label: &str, it: TcpOptionsIterator) {
                     s.disp("msg", e);
                 }
                 let r = it.rest();
-                s.sl(&format!("{}.rest", label), r);
+                if borrowed {
+                    s.sl(&format!("{}.rest", label), r);
+                }
                 if r.len() >= prev && x.is_ok() {
                     s.flag("iterator-no-progress", format!("{}: rest did not shrink ({} -> {})", label, prev, r.len()));
                     break;
@@ -1397,7 +1407,7 @@ pub fn run_door(door: Door, b: &[u8], s: &mut Sink, case: &mut Case) {
             if s.res(&r) {
                 let o = r.as_ref().unwrap();
                 s.dbg("len", &(o.len(), o.data_offset(), o.is_empty()));
-                drive_tcp_options(s, "opts.iter", o.elements_iter());
+                drive_tcp_options_ex(s, "opts.iter", o.elements_iter(), false);
             }
         }
         Door::NdpOpts => {
